@@ -2,6 +2,7 @@ import Xrl.Lemmas.Meets
 import Xrl.Props.C02
 import Xrl.Props.C01
 import Xrl.Spec.Sums
+import Xrl.Gen.F_cs_barns
 /-!
 # C05 — totals, per-atom and differential cross sections obey their defining identities
 -/
